@@ -385,3 +385,30 @@ N.append({'id': 'py-comparisons-mirrored', 'generator': 'py-swap-cmp', 'file': N
 # test was recognised in one spelling only; `_ns_empty_test` now reads empty(), size() == 0,
 # size() != 0, size() > 0 and their mirrored forms.
 N.append({'id': 'cxx-idioms-respelt', 'generator': 'cxx-idioms', 'file': None, 'edits': []})
+
+# every call-free if-condition is given a name first: `if (const bool hc = static_cast<bool>(C); hc)`
+# (165 sites).  The first run raised alarms in fourteen rules (every rule that reads a test off the
+# condition of an `if`).  The IR now puts the initialiser of a `const bool` local that only names a
+# pure test back into the condition it stands for (cxx_frontend.resolve_bool_locals) and drops the
+# declaration; the rules were not touched.
+N.append({'id': 'cxx-conditions-named-first', 'generator': 'hoist-conditions', 'file': None, 'edits': []})
+
+# the same by hand, with the declaration as a statement of its own
+N.append({'id': 'cxx-namespace-conflict-named', 'file': 'src/treespec/richcomparison.cpp', 'edits': [(
+    """    if (m_traversal.size() != other.m_traversal.size() || m_none_is_leaf != other.m_none_is_leaf)
+        [[likely]] {
+        return false;
+    }
+    if (!m_namespace.empty() && !other.m_namespace.empty() && m_namespace != other.m_namespace)
+        [[likely]] {
+        return false;
+    }""",
+    """    if (m_traversal.size() != other.m_traversal.size() || m_none_is_leaf != other.m_none_is_leaf)
+        [[likely]] {
+        return false;
+    }
+    const bool namespaces_conflict =
+        !m_namespace.empty() && !other.m_namespace.empty() && m_namespace != other.m_namespace;
+    if (namespaces_conflict) [[likely]] {
+        return false;
+    }""")]})
